@@ -32,6 +32,7 @@ import (
 type c15EnvSpec struct {
 	goarch string
 	tags   string
+	runEnv []string // process environment of the child (a fresh process): GC pressure, one P
 }
 
 func c15HarnessDir() string {
@@ -80,8 +81,11 @@ func c15BuildChild(c *Ctx, env c15EnvSpec) (string, error) {
 }
 
 func c15Env(c *Ctx) {
-	for _, env := range []c15EnvSpec{{"386", "verif"}} {
+	for _, env := range []c15EnvSpec{{"386", "verif", nil}, {"amd64", "verif", []string{"GOGC=1", "GOMAXPROCS=1"}}} {
 		name := env.goarch + "/" + env.tags
+		if len(env.runEnv) > 0 {
+			name += "+" + strings.Join(env.runEnv, ",")
+		}
 		t0 := time.Now()
 		bin, err := c15BuildChild(c, env)
 		if err != nil {
@@ -100,6 +104,9 @@ func c15Env(c *Ctx) {
 			fmt.Fprintf(&req, "D %d %d\n", r.U64()>>1, n)
 		}
 		nPairs := c.N(2000, 20000)
+		if env.goarch == "amd64" {
+			nPairs = c.N(500, 5000)
+		}
 		pairs := make([][2]ot.Label, 0, nPairs)
 		structured := []ot.Label{{D0: 1 << 31}, {D0: 1 << 32}, {D0: 1 << 63}, {D1: 1 << 31}, {D1: 1 << 32}, {D1: 1 << 63},
 			{D0: 0xffffffff00000000, D1: 0xffffffff00000000}, {D0: 0x00000000ffffffff, D1: 0x00000000ffffffff},
@@ -125,7 +132,7 @@ func c15Env(c *Ctx) {
 		ctx, cancel := context.WithTimeout(context.Background(), 5*time.Minute)
 		cmd := exec.CommandContext(ctx, bin)
 		cmd.Stdin = &req
-		cmd.Env = append(os.Environ(), "C15_CHILD=1")
+		cmd.Env = append(append(os.Environ(), "C15_CHILD=1"), env.runEnv...)
 		out, err := cmd.Output()
 		cancel()
 		if err != nil {
